@@ -245,3 +245,152 @@ def starved(prop, items, fn, same, label, rems=None):
                     break
     finally:
         H.MONITORS_OFF[0] = False
+
+
+# ---- fault storm -------------------------------------------------------------------------------------------------------
+# Failure atomicity: a burst of calls that the library rejects (each in a different place: before, inside and after the
+# recursion into nested code objects / constants), then the shard's ordinary cases run in the same process and thread.
+# A call that raises must leave nothing behind - no counter, depth, flag, default-argument object or interpreter limit - that
+# changes what later calls on good inputs do; the shard's own oracles judge those later calls.
+
+def fault_storm(seed=0):
+    import json
+    import types
+    import gen_const
+    cdm = H.lib()
+    CodeData = cdm.CodeData
+    rng = H.rng_for(seed, "storm")
+    n = {"from_code": 0, "to_code": 0, "from_json": 0, "recursion": 0, "unexpectedly_accepted": 0}
+
+    def attempt(kind, fn, *a):
+        try:
+            fn(*a)
+            n["unexpectedly_accepted"] += 1
+        except RecursionError:
+            n["recursion"] += 1
+        except Exception:
+            n[kind] += 1
+
+    src = ("def outer(a, b=1):\n    'doc'\n    def inner(x):\n        return (lambda y: (x, y, ((1, 2.0), (True, (None, ...)))))\n"
+           "    return inner\nclass K:\n    def m(self): return [i for i in self]\n")
+    good = compile(src, "<storm>", "exec", dont_inherit=True)
+    try:
+        CodeData.from_code(good).to_code()
+    except Exception:
+        H.count("storm_skipped_library_rejects_the_good_program")
+        return        # the shard's own oracles will say why
+    outer = [c for c in good.co_consts if isinstance(c, types.CodeType)][0]
+    inner = [c for c in outer.co_consts if isinstance(c, types.CodeType)][0]
+    # (a) rejected inside the conversion of a nested code object (unknown flag bit two levels down)
+    bad_inner = gen_const.rebuild(inner, co_flags=inner.co_flags | 0x8000000)
+    bad_outer = gen_const.rebuild(outer, co_consts=tuple(bad_inner if c is inner else c for c in outer.co_consts))
+    bad_nested = gen_const.rebuild(good, co_consts=tuple(bad_outer if c is outer else c for c in good.co_consts))
+    # (b) rejected at the top, before any recursion (co_nlocals disagrees with co_varnames; unknown flag on the module itself)
+    try:
+        bad_top = gen_const.rebuild(outer, co_nlocals=outer.co_nlocals + 3)
+    except Exception:
+        bad_top = bad_outer
+    bad_flag_top = gen_const.rebuild(good, co_flags=good.co_flags | 0x4000000)
+    for i in range(1100):
+        attempt("from_code", CodeData.from_code, bad_nested)
+        attempt("from_code", CodeData.from_code, bad_top)
+        if i % 4 == 0:
+            attempt("from_code", CodeData.from_code, bad_flag_top)
+    # (a') hand-assembled bytecode whose jumps land inside an instruction (behind an EXTENDED_ARG prefix) or past the end
+    import dis
+    EXT, LC, JA, RV, NOP = dis.opmap["EXTENDED_ARG"], dis.opmap["LOAD_CONST"], dis.opmap["JUMP_ABSOLUTE"], dis.opmap["RETURN_VALUE"], dis.opmap["NOP"]
+    unit = 2 if H.PY >= (3, 10) else 1
+    for pad in range(0, 12):
+        body = [NOP, 0] * pad + [EXT, 0, LC, 0]
+        inside = (len(body) - 2) // unit          # the LOAD_CONST behind its prefix
+        for target in (inside, (len(body) + 40) // unit):
+            bc = bytes(bytearray(body + [JA, target % 256, LC, 0, RV, 0]))
+            try:
+                odd = gen_const.rebuild(good, co_code=bc)
+            except Exception:
+                continue
+            attempt("from_code", CodeData.from_code, odd)
+    # (c) documents and data the loader / encoder rejects
+    def good_call(when):
+        try:
+            cd_ = CodeData.from_code(good)
+            if H.strict_diff(good, cd_.to_code()):
+                raise AssertionError("round trip of a valid program differs")
+            CodeData.from_json_data(json.loads(json.dumps(cd_.to_json_data()))).normalize().to_code()
+            return cd_
+        except Exception as e:
+            H.violation(H.PROP or "?", "stress", "a valid call fails after a burst of rejected calls", {"k": "storm", "id": "fault-storm"},
+                        "%s: from_code / to_code / JSON / normalize of a small valid program raised %s: %s" % (when, type(e).__name__, H.short(e, 300)))
+            return None
+    cd = good_call("after %d rejected from_code calls" % n["from_code"])
+    if cd is None:
+        return
+    doc_text = json.dumps(cd.to_json_data())
+
+    def mutate(doc, how):
+        """Returns a damaged copy of the document."""
+        stack = [doc]
+        sites = []
+        while stack:
+            d = stack.pop()
+            if isinstance(d, dict):
+                sites.append(d)
+                stack.extend(d.values())
+            elif isinstance(d, list):
+                stack.extend(d)
+        if how == "deep":
+            t = 1
+            for _ in range(260):
+                t = [t] if _ % 3 else {"frozenset": [t]}        # tuples are JSON lists, frozensets tagged objects
+            consts = [d for d in sites if "constant" in d]
+            (consts[rng.randrange(len(consts))] if consts else doc)["constant"] = [[2, t], 3]
+        elif how == "int":
+            consts = [d for d in sites if "constant" in d]
+            bad = {"int": rng.choice(["12three", "007", "", "0x", "1e5", "1_", "--1", " 1 2"])}
+            (consts[rng.randrange(len(consts))] if consts else doc)["constant"] = rng.choice([bad, [1, [bad]], {"frozenset": [[bad]]}, [[[[bad]]]]])
+        elif how == "name":
+            ins = [d for d in sites if "name" in d and "arg" in d or ("name" in d and "line_number" in d)]
+            if ins:
+                ins[rng.randrange(len(ins))]["name"] = rng.choice(["GEN_START", "<7>", "NOT_AN_OPCODE", ""])
+        elif how == "drop":
+            d = sites[rng.randrange(len(sites))]
+            if d:
+                del d[rng.choice(sorted(d))]
+        elif how == "type":
+            d = sites[rng.randrange(len(sites))]
+            if d:
+                d[rng.choice(sorted(d))] = rng.choice([None, 3.5, "x", [], {"unknown": 1}, [[1]], {"frozenset": 5}, {"complex": 1}, {"float": "fast"},
+                                                       {"bytes": "%%%"}, {"string": "no quotes"}, [[[{"complex": {"real": 1}}]]]])
+        return doc
+    for i in range(360):
+        how = ["deep", "int", "name", "drop", "type", "int", "deep", "type"][i % 8]
+        doc = mutate(json.loads(doc_text), how)
+
+        def load_and_encode(d):
+            x = CodeData.from_json_data(d)
+            x.to_code()
+            x.normalize().to_code()
+            raise ValueError("accepted")      # a damaged document that still loads and encodes: counted as a failed-on-purpose call
+        attempt("from_json" if how != "name" else "to_code", load_and_encode, doc)
+    # (d) RecursionError in the middle of nested conversions
+    deep = "x = 0\n"
+    for d in range(90):
+        deep = "def f%d():\n" % d + "".join("    " + l + "\n" for l in deep.splitlines())
+    try:
+        deep_code = compile(deep, "<deep>", "exec", dont_inherit=True)
+    except (RecursionError, MemoryError, SyntaxError, IndentationError):
+        deep_code = None
+    if deep_code is not None:
+        old = sys.getrecursionlimit()
+        H.MONITORS_OFF[0] = True      # hooks that run out of stack themselves would be faults of the harness
+        try:
+            sys.setrecursionlimit(180)
+            for _ in range(12):
+                attempt("from_code", CodeData.from_code, deep_code)
+        finally:
+            sys.setrecursionlimit(old)
+            H.MONITORS_OFF[0] = False
+    good_call("after the whole storm (%d rejected calls)" % sum(n.values()))
+    for k, v in n.items():
+        H.count("storm:" + k, v)
+    H.count("fault_storms")
